@@ -77,6 +77,57 @@ pub fn seeds() -> Vec<Seed> {
         for _ in 0..8 { let r = crate::c15::gen_root(&mut rng, *ver, false); if r.groups.len() >= 2 && !r.materials.is_empty() && !r.portals.is_empty() { let mut c = Cursor::new(Vec::new()); if wow_wmo::WmoWriter::new().write_root(&mut c, &r, *ver).is_ok() { v.push(Seed { fmt: "wmo", name: format!("root{i}"), bytes: c.into_inner() }); break; } } }
         for _ in 0..8 { let g = crate::c15::gen_group(&mut rng); if g.vertices.len() >= 3 { let mut c = Cursor::new(Vec::new()); if wow_wmo::WmoWriter::new().write_group(&mut c, &g, *ver).is_ok() { v.push(Seed { fmt: "wmo", name: format!("group{i}"), bytes: c.into_inner() }); break; } } }
     }
+    // ADT with water, flight bounds, texture flags and populated terrain chunks (all chunks kept except terrain chunks 4..256)
+    for (wi, ver) in [wow_adt::AdtVersion::WotLK, wow_adt::AdtVersion::MoP].into_iter().enumerate() {
+        let mut b = wow_adt::builder::AdtBuilder::new().with_version(ver).add_texture("a.blp").add_texture("b.blp").add_model("m.m2").add_wmo("w.wmo")
+            .add_water_data(crate::c14::water(&mut rng))
+            .add_flight_bounds(wow_adt::chunks::MfboChunk { max_plane: [7; 9], min_plane: [-7; 9] })
+            .add_texture_flags(wow_adt::chunks::MtxfChunk { flags: vec![1, 2] });
+        if let Ok(base) = wow_adt::builder::AdtBuilder::new().with_version(ver).add_texture("t.blp").build().and_then(|x| x.to_bytes()) {
+            if let Ok(wow_adt::ParsedAdt::Root(root)) = wow_adt::parse_adt(&mut Cursor::new(&base)) {
+                for (i, mut c) in root.mcnk_chunks.into_iter().take(2).enumerate() {
+                    c.layers = Some(wow_adt::chunks::mcnk::MclyChunk { layers: (0..2).map(|j| wow_adt::chunks::mcnk::MclyLayer { texture_id: j as u32, flags: Default::default(), offset_in_mcal: 0, effect_id: 0 }).collect() });
+                    c.alpha = Some(wow_adt::chunks::mcnk::McalChunk::new(rng.bytes(2048)));
+                    c.shadow = Some(wow_adt::chunks::mcnk::McshChunk { shadow_map: rng.bytes(512) });
+                    if i == 0 { c.header.n_doodad_refs = 2; c.refs = Some(wow_adt::chunks::mcnk::McrfChunk { references: vec![0, 0] }); }
+                    b = b.add_mcnk_chunk(c);
+                }
+            }
+        }
+        if let Ok(full) = b.build().and_then(|x| x.to_bytes()) {
+            let mut out = vec![]; let mut p = 0usize; let mut n = 0;
+            while p + 8 <= full.len() { let sz = u32::from_le_bytes([full[p + 4], full[p + 5], full[p + 6], full[p + 7]]) as usize; let e = (p + 8 + sz).min(full.len());
+                if &full[p..p + 4] == b"KNCM" { n += 1; if n <= 3 { out.extend(&full[p..e]); } } else { out.extend(&full[p..e]); } p = e; }
+            v.push(Seed { fmt: "adt", name: format!("water{wi}"), bytes: out });
+        }
+    }
+    // chunked M2 (MD21 wrapper around a model, followed by every auxiliary chunk the reader knows, small patterned payloads)
+    for (i, ver) in [wow_m2::M2Version::Legion, wow_m2::M2Version::WotLK].iter().enumerate() {
+        let (m, _) = crate::c13::gen_model(&mut rng, *ver); let mut c = Cursor::new(Vec::new());
+        if m.write(&mut c).is_ok() { let inner = c.into_inner(); let mut d = b"MD21".to_vec(); d.extend((inner.len() as u32).to_le_bytes()); d.extend(&inner);
+            for (k, id) in [b"SFID", b"AFID", b"TXID", b"PFID", b"SKID", b"BFID", b"LDV1", b"EXPT", b"EXP2", b"PABC", b"PADC", b"WFV1", b"WFV2", b"WFV3", b"EDGF", b"NERF", b"DETL", b"RPID", b"GPID", b"TXAC", b"PGD1", b"DBOC", b"AFRA", b"DPIV", b"PSBC", b"PEDC", b"PCOL", b"PFDC", b"ZZZZ"].iter().enumerate() {
+                let len = [4usize, 8, 16, 24, 48, 64][(k + i) % 6]; d.extend(*id); d.extend((len as u32).to_le_bytes()); d.extend((0..len).map(|j| if j % 4 == 0 { (1 + (j / 4 + k) % 3) as u8 } else { 0 })); }
+            v.push(Seed { fmt: "m2c", name: format!("chunked{i}"), bytes: d }); }
+    }
+    // animation files: modern (MAOF header, entry table, AFID sections with per-bone tracks) and headerless legacy data
+    { let u = |d: &mut Vec<u8>, x: u32| d.extend(x.to_le_bytes());
+      let mut d = b"MAOF".to_vec(); for x in [1u32, 2, 0, 20] { u(&mut d, x); }
+      let sec = |id: u32, bones: &[u32]| { let mut s = b"AFID".to_vec(); for x in [id, 0, 100] { s.extend(x.to_le_bytes()); } for b in bones { s.extend(b.to_le_bytes()); }
+          for (bi, b) in bones.iter().enumerate() { if *b == 0 { continue; } s.extend((bi as u32).to_le_bytes()); s.extend(7u32.to_le_bytes());
+              s.extend(2u32.to_le_bytes()); for t in [0u32, 50] { s.extend(t.to_le_bytes()); } for f in [0.0f32, 1.0, 2.0, 3.0, 4.0, 5.0] { s.extend(f.to_le_bytes()); }
+              s.extend(1u32.to_le_bytes()); s.extend(10u32.to_le_bytes()); for f in [0.0f32, 0.0, 0.0, 1.0] { s.extend(f.to_le_bytes()); }
+              s.extend(1u32.to_le_bytes()); s.extend(20u32.to_le_bytes()); for f in [1.0f32, 1.0, 1.0] { s.extend(f.to_le_bytes()); } } s };
+      let (s1, s2) = (sec(4, &[1, 0, 1]), sec(5, &[0, 1]));
+      let o1 = 20 + 24; let o2 = o1 + s1.len();
+      for (id, o, n) in [(4u32, o1, 3u32), (5, o2, 2)] { u(&mut d, id); u(&mut d, o as u32); u(&mut d, 16 + 4 * n); }
+      d.extend(&s1); d.extend(&s2);
+      v.push(Seed { fmt: "anim", name: "modern".into(), bytes: d });
+      v.push(Seed { fmt: "anim", name: "legacy".into(), bytes: (0..96u32).flat_map(|k| (k * 33).to_le_bytes()).collect() }); }
+    // later client database containers: WDB2 (basic and extended header with index arrays) and WDB5
+    { let rec = |d: &mut Vec<u8>| { for r in 0..3u32 { for x in [r + 1, r * 7, 1 + r] { d.extend(x.to_le_bytes()); } } d.extend(b"\0ab\0cd\0"); };
+      let mut d = b"WDB2".to_vec(); for x in [3u32, 3, 12, 7, 0x1234, 12000, 0] { d.extend(x.to_le_bytes()); } rec(&mut d); v.push(Seed { fmt: "dbc", name: "wdb2-basic".into(), bytes: d });
+      let mut d = b"WDB2".to_vec(); for x in [3u32, 3, 12, 7, 0x1234, 15000, 0, 1, 3, 0, 0] { d.extend(x.to_le_bytes()); } d.extend(vec![0u8; 3 * 6]); rec(&mut d); v.push(Seed { fmt: "dbc", name: "wdb2-extended".into(), bytes: d });
+      let mut d = b"WDB5".to_vec(); for x in [3u32, 3, 12, 7, 0x1234, 0x5678, 1, 3, 0] { d.extend(x.to_le_bytes()); } d.extend(0u16.to_le_bytes()); d.extend(0u16.to_le_bytes()); rec(&mut d); v.push(Seed { fmt: "dbc", name: "wdb5".into(), bytes: d }); }
     // BLP: the repository's fixtures plus encoder output with full mip chains
     if let Ok(rd) = std::fs::read_dir("/repo/file-formats/graphics/wow-blp/test-data") { let mut names: Vec<_> = rd.flatten().map(|e| e.path()).filter(|p| p.extension().map(|x| x == "blp").unwrap_or(false)).collect(); names.sort(); for p in names { if let Ok(d) = std::fs::read(&p) { if d.len() < 200_000 { v.push(Seed { fmt: "blp", name: p.file_name().unwrap().to_string_lossy().into_owned(), bytes: d }); } } } }
     for (n, b) in crate::c16::sample_blps(&mut rng) { v.push(Seed { fmt: "blp", name: n, bytes: b }); }
@@ -104,6 +155,9 @@ pub fn drive(fmt: &str, data: &[u8], scratch: &std::path::Path) -> &'static str 
                 for n in names.iter().map(|s| s.as_str()).chain(["multi.txt", "enc.bin", "raw.bin", "(listfile)", "(attributes)"]).take(12) { let _ = a.find_file(n); let _ = a.read_file(n); } let _ = a.list_all(); let _ = a.verify_signature(); "ok" } } }
         "patch" => match wow_mpq::patch::PatchFile::parse(data) { Err(_) => "err", Ok(p) => { let base: Vec<u8> = (0..400).map(|k| (k * 7 % 251) as u8).collect(); let _ = wow_mpq::patch::apply_patch(&p, &base); "ok" } },
         "m2" => { let a = wow_m2::parse_m2(&mut Cursor::new(data)).is_ok(); let b = wow_m2::M2Model::parse(&mut Cursor::new(data)).is_ok(); let _ = wow_m2::anim::AnimFile::parse(&mut Cursor::new(data)); if a || b { "ok" } else { "err" } }
+        "m2c" => { let a = wow_m2::parse_m2(&mut Cursor::new(data)).is_ok(); let b = wow_m2::M2Model::parse_chunked(&mut Cursor::new(data)).is_ok(); if a || b { "ok" } else { "err" } }
+        "anim" => { let a = wow_m2::anim::AnimFile::parse(&mut Cursor::new(data)); let b = wow_m2::anim::AnimFile::parse_with_format(&mut Cursor::new(data), wow_m2::anim::AnimFormat::Modern).is_ok();
+            let c = wow_m2::anim::AnimFile::parse_validated(&mut Cursor::new(data)).is_ok(); if let Ok(f) = &a { let _ = f.memory_usage(); let _ = f.validate(); } if a.is_ok() || b || c { "ok" } else { "err" } }
         "skin" => { let a = wow_m2::skin::SkinFile::parse(&mut Cursor::new(data)).is_ok(); let _ = wow_m2::skin::parse_embedded_skin(&mut Cursor::new(data), 256); if a { "ok" } else { "err" } }
         "adt" => if wow_adt::parse_adt(&mut Cursor::new(data)).is_ok() { "ok" } else { "err" },
         "wmo" => { let a = wow_wmo::parse_wmo(&mut Cursor::new(data)).is_ok(); let b = wow_wmo::WmoParser::new().parse_root(&mut Cursor::new(data)).is_ok(); if a || b { "ok" } else { "err" } }
@@ -129,9 +183,14 @@ pub fn mutations(s: &Seed, seed: u64, thorough: bool) -> Vec<(String, Vec<u8>)> 
     // boundary values in every aligned dword of the first 1 KiB, and in every chunk-size field of chunked files
     let vals = |len: usize| -> Vec<u32> { vec![0, 1, 0x7FFF_FFFF, 0x8000_0000, 0xFFFF_FFFF, (len as u32).wrapping_sub(1), len as u32, (len as u32).wrapping_add(1)] };
     let mut fields: Vec<usize> = (0..n.min(1024) / 4).map(|i| i * 4).collect();
-    if matches!(s.fmt, "adt" | "wmo" | "wdt" | "wdl") { let mut p = 0usize; while p + 8 <= n { fields.push(p + 4); let sz = u32::from_le_bytes([b[p + 4], b[p + 5], b[p + 6], b[p + 7]]) as usize; if sz > n { break; } // sub-chunks of MCNK / MOGP
+    if matches!(s.fmt, "adt" | "wmo" | "wdt" | "wdl" | "m2c") { let mut p = 0usize; while p + 8 <= n { fields.push(p + 4); let sz = u32::from_le_bytes([b[p + 4], b[p + 5], b[p + 6], b[p + 7]]) as usize; if sz > n { break; } // sub-chunks of MCNK / MOGP
             if &b[p..p + 4] == b"KNCM" { let mut q = p + 8 + 136; while q + 8 <= (p + 8 + sz).min(n) { fields.push(q + 4); let ss = u32::from_le_bytes([b[q + 4], b[q + 5], b[q + 6], b[q + 7]]) as usize; q += 8 + ss; } for o in (0..136).step_by(4) { fields.push(p + 8 + o); } }
+            // water: the populated rows of the 256-entry header table and everything they point at (instances, attributes, bitmaps, vertex data)
+            if &b[p..p + 4] == b"O2HM" { let body = p + 8; for e in 0..256usize { let o = body + e * 12; if o + 12 <= n && (e == 0 || b[o..o + 12].iter().any(|x| *x != 0)) { for k in 0..3 { fields.push(o + k * 4); } } } for o in (3072..sz.min(3072 + 640)).step_by(4) { fields.push(body + o); } }
+            // the first dwords of every auxiliary chunk of a chunked model
+            if s.fmt == "m2c" && &b[p..p + 4] != b"MD21" { for o in (0..sz.min(16)).step_by(4) { fields.push(p + 8 + o); } }
             p += 8 + sz; } }
+    if s.fmt == "anim" { for o in (0..n.min(400)).step_by(4) { fields.push(o); } }
     if s.fmt == "mpq" { // tables live at the end: include dwords of the last 512 bytes (still encrypted, so values become noise after decryption) and the header
         for i in (n.saturating_sub(512) / 4 * 4..n.saturating_sub(3)).step_by(4) { fields.push(i); } }
     fields.sort(); fields.dedup();
@@ -139,9 +198,9 @@ pub fn mutations(s: &Seed, seed: u64, thorough: bool) -> Vec<(String, Vec<u8>)> 
     for (fi, &o) in fields.iter().enumerate() { if o + 4 > n || (fi as u64 + seed) % take_every != 0 { continue; } for v in vals(n) { let mut m = b.clone(); m[o..o + 4].copy_from_slice(&v.to_le_bytes()); if m != *b { out.push((format!("dword@{o}={v:#x}"), m)); } } }
     // pairs over the first 8 dwords (two hostile header fields at once)
     let hv = [0u32, 1, 0xFFFF_FFFF, n as u32, 0x200];
-    for i in 0..8usize.min(n / 4) { for j in (i + 1)..8usize.min(n / 4) { for &x in &hv { for &y in &hv { if !thorough && !matches!(s.fmt, "dbc" | "attr" | "patch" | "skin") && (i + j + x as usize + y as usize + seed as usize) % 4 != 0 { continue; } let mut m = b.clone(); m[i * 4..i * 4 + 4].copy_from_slice(&x.to_le_bytes()); m[j * 4..j * 4 + 4].copy_from_slice(&y.to_le_bytes()); out.push((format!("dwords@{},{}={x:#x},{y:#x}", i * 4, j * 4), m)); } } } }
+    for i in 0..8usize.min(n / 4) { for j in (i + 1)..8usize.min(n / 4) { for &x in &hv { for &y in &hv { if !thorough && !matches!(s.fmt, "dbc" | "attr" | "patch" | "skin" | "anim") && (i + j + x as usize + y as usize + seed as usize) % 4 != 0 { continue; } let mut m = b.clone(); m[i * 4..i * 4 + 4].copy_from_slice(&x.to_le_bytes()); m[j * 4..j * 4 + 4].copy_from_slice(&y.to_le_bytes()); out.push((format!("dwords@{},{}={x:#x},{y:#x}", i * 4, j * 4), m)); } } } }
     // chunk reordering / duplication / deletion
-    if matches!(s.fmt, "adt" | "wmo" | "wdt" | "wdl") { let mut cs: Vec<(usize, usize)> = vec![]; let mut p = 0usize; while p + 8 <= n { let sz = u32::from_le_bytes([b[p + 4], b[p + 5], b[p + 6], b[p + 7]]) as usize; if p + 8 + sz > n { break; } cs.push((p, p + 8 + sz)); p += 8 + sz; }
+    if matches!(s.fmt, "adt" | "wmo" | "wdt" | "wdl" | "m2c") { let mut cs: Vec<(usize, usize)> = vec![]; let mut p = 0usize; while p + 8 <= n { let sz = u32::from_le_bytes([b[p + 4], b[p + 5], b[p + 6], b[p + 7]]) as usize; if p + 8 + sz > n { break; } cs.push((p, p + 8 + sz)); p += 8 + sz; }
         for i in 0..cs.len().min(14) { let mut del = vec![]; let mut dup = vec![]; for (k, c) in cs.iter().enumerate() { if k != i { del.extend(&b[c.0..c.1]); } dup.extend(&b[c.0..c.1]); if k == i { dup.extend(&b[c.0..c.1]); } } out.push((format!("delete chunk {i}"), del)); out.push((format!("duplicate chunk {i}"), dup));
             if i + 1 < cs.len() { let mut sw = vec![]; for (k, _) in cs.iter().enumerate() { let c = if k == i { cs[i + 1] } else if k == i + 1 { cs[i] } else { cs[k] }; sw.extend(&b[c.0..c.1]); } out.push((format!("swap chunks {i},{}", i + 1), sw)); } } }
     // havoc
